@@ -89,7 +89,25 @@ CHECKS["C14"] = dict(
     ref="DESIGN.md section 5 C14, section 3.6",
     technique="TLC model checking of ConnLoop.tla + big-step conformance of flush schedules with gated backend calls")
 
+CHECKS["C07"] = dict(
+    engine="pathlocks", category="model_checking",
+    note=("Trusted base: TLC; the lock plans of spec/PathLocks.tla (validated cell by cell against the server: predicted and "
+          "observed overlap/blocking agree); the class table of spec/Trace_Overlap.tla; goroutine ids to attribute calls to "
+          "requests. Non-overlap is a timeout observation and only confirms predictions. Open findings R11/R18 are matched by "
+          "request kind and call kind, any other conflicting overlap is a violation."),
+    text=("TLC checks on PathLocks.tla (RWMutexes with writer preference, 2-3 concurrent handlers, all lock plans of the "
+          "handlers) that simultaneous backend calls respect the File contract (named deviations R11/R18 aside), that no "
+          "handler gets stuck, and derives the ordered may-overlap matrix. Every cell (request A held at one of its backend "
+          "calls x request B, same/other connection) is forced to rendezvous in the real server; TLC then validates the "
+          "recorded enter/exit log against Trace_Overlap.tla: any pair inside the backend at once that the contract forbids "
+          "is a violation. Schedule-quantified, so forced rendezvous + model checking is the right level."),
+    ref="DESIGN.md section 5 C07, section 3.7, section 4 B3/B4",
+    technique="TLC model checking of PathLocks.tla + forced pairwise rendezvous + TLC trace validation (Trace_Overlap.tla)")
+
 ENGINES = [
+    {"name": "pathlocks", "path": "spec/PathLocks.tla + spec/Trace_Overlap.tla + harness/cmd/pairs",
+     "serves_properties": ["C07"],
+     "kind_free_text": "lock-plan TLA+ spec; TLC-derived may-overlap matrix; gated rendezvous experiments; TLC trace validation of enter/exit logs"},
     {"name": "connloop", "path": "spec/ConnLoop.tla + spec/MC_ConnLoop.tla + lib/bigstep.py + harness/cmd/connsched",
      "serves_properties": ["C06", "C14"],
      "kind_free_text": "small-step TLA+ spec of the connection loop; TLC's explored graph folded into quiescent big steps; "
